@@ -59,13 +59,31 @@ Theorem C05T_tup_inflated_count : forall (m : attrs) (extra : nat), Forall entry
   t_stat o = TSErr /\ t_ins o = m.
 Proof. exact tup_inflated_count. Qed.
 Print Assumptions C05T_tup_inflated_count.
-Theorem C05T_tup_inflated_buffer : forall (m : attrs) (k v : list N) (extra : nat), Forall entry_ok m -> len k < 4294967296 ->
-  (0 < extra)%nat -> N.of_nat (S (length m)) < 2147483648 -> N.of_nat (length v + extra) < 2147483648 ->
-  let o := tup_decode (head tMAP 0 ++ w_int32 (wrap32 (Z.of_nat (S (length m)))) 0 ++ flat_map enc_entry m ++
-                       w_string k 0 ++ head tSIMPLE 1 ++ head tBYTE 0 ++ w_int32 (wrap32 (Z.of_nat (length v + extra))) 0 ++ v) in
+Theorem C05T_tup_inflated_buffer : forall (m : attrs) (k v tail : list N) (cnt announced : nat), Forall entry_ok m ->
+  len k < 4294967296 -> (length m < cnt)%nat -> N.of_nat cnt < 2147483648 ->
+  (length v + length tail < announced)%nat -> N.of_nat announced < 2147483648 ->
+  let o := tup_decode (head tMAP 0 ++ w_int32 (wrap32 (Z.of_nat cnt)) 0 ++ flat_map enc_entry m ++
+                       w_string k 0 ++ head tSIMPLE 1 ++ head tBYTE 0 ++ w_int32 (wrap32 (Z.of_nat announced)) 0 ++ v ++ tail) in
   t_stat o = TSErr /\ t_ins o = m.
 Proof. exact tup_inflated_buffer. Qed.
 Print Assumptions C05T_tup_inflated_buffer.
+
+(* ---- C06, second clause: a field of an inadmissible wire type is rejected, not reinterpreted: the map itself, and -
+   after any complete entries - a key that is not a string, a value that is not a SimpleList, an element head that
+   is not BYTE; exactly the complete entries have been added ---- *)
+Theorem C05T_tup_mistyped_map : forall (ty : N) (rest : list N), ty < 16 -> ty <> tMAP ->
+  t_stat (tup_decode (head ty 0 ++ rest)) = TSErr.
+Proof. exact tup_mistyped_map. Qed.
+Print Assumptions C05T_tup_mistyped_map.
+Theorem C05T_tup_mistyped : forall (m : attrs) (k : list N) (ty : N) (rest : list N) (cnt : nat), Forall entry_ok m ->
+  (length m < cnt)%nat -> N.of_nat cnt < 2147483648 -> len k < 4294967296 -> ty < 16 ->
+  let dec tail := tup_decode (head tMAP 0 ++ w_int32 (wrap32 (Z.of_nat cnt)) 0 ++ flat_map enc_entry m ++ tail) in
+  (ty <> tSTR1 -> ty <> tSTR4 -> t_stat (dec (head ty 0 ++ rest)) = TSErr /\ t_ins (dec (head ty 0 ++ rest)) = m) /\
+  (ty <> tSIMPLE -> t_stat (dec (w_string k 0 ++ head ty 1 ++ rest)) = TSErr /\ t_ins (dec (w_string k 0 ++ head ty 1 ++ rest)) = m) /\
+  (ty <> tBYTE -> t_stat (dec (w_string k 0 ++ head tSIMPLE 1 ++ head ty 0 ++ rest)) = TSErr /\
+                  t_ins (dec (w_string k 0 ++ head tSIMPLE 1 ++ head ty 0 ++ rest)) = m).
+Proof. exact tup_mistyped. Qed.
+Print Assumptions C05T_tup_mistyped.
 
 (* ---- packets: header length consistency ---- *)
 Theorem C05T_frame_header : forall body more : list N, 4 + N.of_nat (length body) < 4294967296 ->
